@@ -69,12 +69,11 @@ def build_harness(name, race=False, tags='verif'):
             os.remove(out)
         cmd = ['go', 'build', '-tags', tags, '-overlay', ov, '-o', out]
         if REPO != '/repo':
-            # scratch worktree of netpoll (VERIF_REPO): same module file with the replace directive pointing there
-            mod = open(os.path.join(GO, 'go.mod')).read().replace('=> /repo', '=> ' + REPO)
-            open(os.path.join(WORK, 'go.mod'), 'w').write(mod)
-            if os.path.exists(sum_src):
-                open(os.path.join(WORK, 'go.sum'), 'w').write(open(sum_src).read())
-            cmd.append('-modfile=' + os.path.join(WORK, 'go.mod'))
+            # scratch worktree of the repository (mutation tests): same harness module, replace => that tree
+            mf = os.path.join(WORK, 'go.scratch.mod')
+            open(mf, 'w').write(open(os.path.join(GO, 'go.mod')).read().replace('=> /repo', '=> ' + REPO))
+            open(os.path.join(WORK, 'go.scratch.sum'), 'w').write(open(os.path.join(GO, 'go.sum')).read())
+            cmd += ['-modfile', mf]
         if race:
             cmd.append('-race')
             e = go_env(); e['CGO_ENABLED'] = '1'
